@@ -3,11 +3,11 @@ CONSTANTS
   GPUs = {1, 2}
   Unit = 1
   PortCap = 1
-  MCFrames <- Frames2
+  MCFrames <- Frames3
   FrameChunks = 1
   MaxMig = 3
   Serial = FALSE
-  Requesters = {1, 2}
+  Requesters = {1}
   AcceptGuard = "handling"
-INVARIANTS TypeOK ContentsCopied NothingElseChanged CompleteOnce OneAtATime RoutedBack InRange AllServed
+INVARIANTS TypeOK ContentsCopied NothingElseChanged CompleteOnce OneAtATime RoutedBack InRange AllServed StalledWindowOK
 CHECK_DEADLOCK FALSE
